@@ -122,6 +122,15 @@ def ref_eval(spec, salt, level, seed, X, C, direction):
                 child = _unstack(real.bijection, i)
                 y, l = _vm(getattr(child, meth), jnp.asarray(xi), None if cc is None else jnp.asarray(cc))
                 y, l = np.asarray(y, float), np.asarray(l, float).reshape(N, -1).sum(1)
+            elif spec["mode"] == "axis1":  # parameters mapped along axis 1: slice i uses loc[:, i], scale[:, i]
+                from flowjax.wrappers import unwrap
+
+                a = unwrap(real.bijection)
+                loc_i, sc_i = np.asarray(a.loc, float)[:, i], np.asarray(a.scale, float)[:, i]
+                if direction == "fwd":
+                    y, l = xi * sc_i + loc_i, np.full(N, np.log(np.abs(sc_i)).sum())
+                else:
+                    y, l = (xi - loc_i) / sc_i, np.full(N, -np.log(np.abs(sc_i)).sum())
             else:  # mixed: element-wise loc, global scale (documented example)
                 from flowjax.wrappers import unwrap
 
@@ -280,6 +289,25 @@ def run_case(case):
                 variants["chain[:1]+chain[1:]"] = FB.Chain([b[:1], b[1:]])
                 variants["[chain[i] for i]"] = FB.Chain([b[i] for i in range(len(b))])
                 variants["iter"] = FB.Chain(list(b))
+            members = list(b)
+            for i0 in range(len(members)):
+                for j0 in range(i0 + 1, len(members) + 1):
+                    for sl in (slice(i0, j0), slice(i0 - len(members), j0 if j0 < len(members) else None)):
+                        got, want = b[sl], FB.Chain(members[i0:j0])
+                        transitions += 1
+                        if tuple(got.shape) != tuple(want.shape) or got.cond_shape != want.cond_shape:
+                            add("rewrite|slice-declared-shape", f"{cls}: chain[{sl.start}:{sl.stop}] declares shape={got.shape} cond_shape={got.cond_shape}; "
+                                                                f"a Chain of those members has shape={want.shape} cond_shape={want.cond_shape}")
+                            continue
+                        if want.fwd_ok if hasattr(want, "fwd_ok") else True:
+                            cc = c if want.cond_shape is not None else None
+                            try:
+                                ya, _, la, _ = bt.run_padded(B_["fwd"], got, X, cc)
+                                yb, _, lb, _ = bt.run_padded(B_["fwd"], want, X, cc)
+                                if not (np.allclose(ya, yb, rtol=RTOL, atol=1e-12, equal_nan=True) and np.allclose(la, lb, rtol=RTOL, atol=1e-12, equal_nan=True)):
+                                    add("rewrite|slice-function", f"{cls}: chain[{sl.start}:{sl.stop}] is not the composition of those members")
+                            except NotImplementedError:
+                                pass
             for nm, v in variants.items():
                 transitions += X.shape[0]
                 y1, _, ld1, _ = bt.run_padded(B_["fwd"], v, X, c)
